@@ -390,6 +390,16 @@ def forbid_global_randomness():
         return
     np.random._verif_forbidden = True
     np.random.mtrand._rand = _ForbiddenGlobalState()  # what scipy's random_state=None resolves to
+    try:  # scipy's distribution objects captured the global state when they were created
+        import scipy.stats as st
+        from scipy.stats._distn_infrastructure import rv_generic
+
+        for name in dir(st):
+            obj = getattr(st, name, None)
+            if isinstance(obj, rv_generic):
+                obj._random_state = _ForbiddenGlobalState()
+    except Exception:
+        pass
 
     def refuser(name):
         def f(*a, **k):
